@@ -12,7 +12,9 @@ def run(ck):
         'on-curve+torsion (G2), GroupEncoding::from_bytes goes through the checked decoder, raw decoding goes through the checked uncompressed decoder, '
         'coordinate constructors check the curve equation, Jubjub subgroup decoding reaches the torsion test, and no checked decoder unwraps. '
         'Of the group-law clause only the FFI discipline is decided (R3/R4): which blst point routine each G1/G2 operator delegates to — the complete add-or-double '
-        'entry points, identically for the two sibling groups.  The arithmetic itself and coordinate-system consistency are numerical and NOT decided.')
+        'entry points, identically for the two sibling groups; (R8) the Jacobian accessors of the blst-backed groups hand the stored coordinates through; (R9) the blst point-array '
+        'routines are never handed an empty slice and multi_exp bounds both arguments by the common length; (R10) decoders that delegate to a third-party parser '
+        're-encode and compare.  The arithmetic itself is numerical and NOT decided.')
     ck.rule('C11.R1', 'CHECKED(curve decoders): call closure contains the listed validators, results live, no unwrap')
     n = checked.check_rows(ck, w, 'C11.R1', tables.C11_DECODERS)
     ck.floor('C11.R1', 'decoder/validator obligations', n, 25)
